@@ -50,6 +50,8 @@ impl Substitution {
 pub enum SubstitutionError {
     #[error("Used non-dimension type '{0}' in a dimension expression")]
     SubstitutedNonDTypeWithinDType(Type),
+    #[error("Overflow in the computation of a dimension exponent")]
+    ExponentOverflow,
 }
 
 pub trait ApplySubstitution {
@@ -123,9 +125,14 @@ impl ApplySubstitution for DType {
                             }
                         };
 
-                        new_dtype =
-                            new_dtype.divide(&DType::from_type_variable(tv.clone()).power(*power));
-                        new_dtype = new_dtype.multiply(&dtype.power(*power));
+                        // exponents are i128 rationals: use the checked operations
+                        new_dtype = DType::from_type_variable(tv.clone())
+                            .try_power(*power)
+                            .and_then(|old| new_dtype.try_divide(&old))
+                            .and_then(|d| {
+                                dtype.try_power(*power).and_then(|new| d.try_multiply(&new))
+                            })
+                            .ok_or(SubstitutionError::ExponentOverflow)?;
                     }
                 }
                 DTypeFactor::TPar(name) => {
@@ -142,9 +149,13 @@ impl ApplySubstitution for DType {
                             }
                         };
 
-                        new_dtype = new_dtype
-                            .divide(&DType::from_type_parameter(name.clone()).power(*power));
-                        new_dtype = new_dtype.multiply(&dtype.power(*power));
+                        new_dtype = DType::from_type_parameter(name.clone())
+                            .try_power(*power)
+                            .and_then(|old| new_dtype.try_divide(&old))
+                            .and_then(|d| {
+                                dtype.try_power(*power).and_then(|new| d.try_multiply(&new))
+                            })
+                            .ok_or(SubstitutionError::ExponentOverflow)?;
                     }
                 }
                 DTypeFactor::BaseDimension(_) => {}
